@@ -135,3 +135,6 @@ def check(prog: Program, rep):
     rep.rule("C16.R4", "the ignore set derives only from this call's arguments (no write to caller objects or shared defaults)", floor=2)
     from rules.c18 import class_inputs_not_mutated
     class_inputs_not_mutated(prog, rep, "C16.R4", ["MinErrorFlow"])
+    rep.rule("C16.R5", "node-weighted input: expansion scheme, attribute handling (missing => ignored, present incl. 0 => weighted)", floor=12)
+    from rules.common import node_mode_plumbing
+    node_mode_plumbing(prog, rep, "C16.R5")
